@@ -11,23 +11,23 @@ theorem colExtra_view (t : TypeDesc) : colExtra (viewType t) = (destWidth t : In
   cases t <;> simp [viewType, colExtra, destWidth, viewTypes_length]
 
 theorem readCol_global (ks tb name : FrameRead.Bytes) (t : TypeDesc) (r : FrameRead.Bytes)
-    (hn : fitsShort name = true) (hw : wfType t = true) (hc : noCollClass t = true) :
+    (hn : fitsShort name = true) (hw : wfType t = true) :
     readCol true ks tb (eString name ++ eType t ++ r)
       = .ok ({ keyspace := ks, table := tb, name := name, typ := viewType t }, r) := by
   unfold readCol
   simp only [Bool.not_true, Bool.false_eq_true, if_false, List.append_assoc]
-  rw [bind_ok (pure_apply _ _), bind_ok (readString_eString name _ hn), bind_ok (readTypeInfo_ok t r hw hc)]
+  rw [bind_ok (pure_apply _ _), bind_ok (readString_eString name _ hn), bind_ok (readTypeInfo_ok t r hw)]
   rfl
 
 theorem readCol_perCol (c : ColSpec) (r : FrameRead.Bytes) (k t : FrameRead.Bytes)
     (h1 : fitsShort c.ks = true) (h2 : fitsShort c.table = true) (h3 : fitsShort c.name = true)
-    (hw : wfType c.typ = true) (hc : noCollClass c.typ = true) :
+    (hw : wfType c.typ = true) :
     readCol false k t (eString c.ks ++ (eString c.table ++ (eString c.name ++ eType c.typ)) ++ r)
       = .ok ({ keyspace := c.ks, table := c.table, name := c.name, typ := viewType c.typ }, r) := by
   unfold readCol
   simp only [Bool.not_false, if_true, List.append_assoc]
   rw [bind_bind_ok (readString_eString c.ks _ h1), bind_bind_ok (readString_eString c.table _ h2),
-    bind_ok (pure_apply _ _), bind_ok (readString_eString c.name _ h3), bind_ok (readTypeInfo_ok c.typ r hw hc)]
+    bind_ok (pure_apply _ _), bind_ok (readString_eString c.name _ h3), bind_ok (readTypeInfo_ok c.typ r hw)]
   rfl
 
 theorem hasFlag_small (n bit : Nat) (h : n < 2147483648) : hasFlag (n : Int) bit = (n &&& bit == bit) := by
@@ -47,7 +47,7 @@ theorem sum_map_congr {α : Type} (l : List α) (f g : α → Int) (h : ∀ x, f
   rw [this]
 
 /-- flags, column count and the tail, for the three shapes of column specifications -/
-theorem readMetaTail_ok (m : Meta) (r : FrameRead.Bytes) (hw : wfMeta m = true) (hc : noCollClassMeta m = true) :
+theorem readMetaTail_ok (m : Meta) (r : FrameRead.Bytes) (hw : wfMeta m = true) :
     readMetaTail (m.flagBits : Int) (m.cols.count : Int) (ePaging m.paging ++ eColsBody m.cols ++ r)
       = .ok ((viewMeta m, (globalOf m.cols).1, (globalOf m.cols).2), r) := by
   obtain ⟨paging, cols⟩ := m
@@ -88,15 +88,13 @@ theorem readMetaTail_ok (m : Meta) (r : FrameRead.Bytes) (hw : wfMeta m = true) 
     have hwc : ((fitsShort ks = true ∧ fitsShort tb = true) ∧ cs.length < 2147483648) ∧
         ∀ c ∈ cs, fitsShort c.1 = true ∧ wfType c.2 = true := by
       simpa [wfCols] using hw'.2
-    have hcc : ∀ c ∈ cs, noCollClass c.2 = true := by
-      simpa [noCollClassMeta, noCollClassCols] using hc
     simp only [hnm, hg, Bool.false_eq_true, if_false, if_true, eColsBody, List.append_assoc, Cols.count,
       Int.toNat_natCast]
     rw [bind_bind_ok (readString_eString ks _ hwc.1.1.1), bind_bind_ok (readString_eString tb _ hwc.1.1.2),
       bind_ok (pure_apply _ _)]
     rw [bind_ok (readN_flatMap (readCol true ks tb) (fun c : FrameRead.Bytes × TypeDesc => eString c.1 ++ eType c.2)
       (fun c => ({ keyspace := ks, table := tb, name := c.1, typ := viewType c.2 } : ColumnInfo)) cs r
-      (fun c hcm r' => readCol_global ks tb c.1 c.2 r' (hwc.2 c hcm).1 (hwc.2 c hcm).2 (hcc c hcm)))]
+      (fun c hcm r' => readCol_global ks tb c.1 c.2 r' (hwc.2 c hcm).1 (hwc.2 c hcm).2))]
     simp only [pure_apply, viewMeta, viewCols, globalOf, actualCount, Cols.count, colTypes, List.map_map]
     have hs := sum_map_congr cs (fun c => colExtra (viewType c.2)) (fun c => (destWidth c.2 : Int) - 1) (fun c => colExtra_view c.2)
     simp only [Function.comp_def]
@@ -109,15 +107,13 @@ theorem readMetaTail_ok (m : Meta) (r : FrameRead.Bytes) (hw : wfMeta m = true) 
     have hwc : cs.length < 2147483648 ∧
         ∀ c ∈ cs, ((fitsShort c.ks = true ∧ fitsShort c.table = true) ∧ fitsShort c.name = true) ∧ wfType c.typ = true := by
       simpa [wfCols] using hw'.2
-    have hcc : ∀ c ∈ cs, noCollClass c.typ = true := by
-      simpa [noCollClassMeta, noCollClassCols] using hc
     simp only [hnm, hg, Bool.false_eq_true, if_false, eColsBody, Cols.count, Int.toNat_natCast]
     rw [bind_ok (pure_apply _ _)]
     rw [bind_ok (readN_flatMap (readCol false [] [])
       (fun c : ColSpec => eString c.ks ++ (eString c.table ++ (eString c.name ++ eType c.typ)))
       (fun c => ({ keyspace := c.ks, table := c.table, name := c.name, typ := viewType c.typ } : ColumnInfo)) cs r
       (fun c hcm r' => readCol_perCol c r' [] [] (hwc.2 c hcm).1.1.1 (hwc.2 c hcm).1.1.2 (hwc.2 c hcm).1.2
-        (hwc.2 c hcm).2 (hcc c hcm)))]
+        (hwc.2 c hcm).2))]
     simp only [pure_apply, viewMeta, viewCols, globalOf, actualCount, Cols.count, colTypes, List.map_map]
     have hs := sum_map_congr cs (fun c => colExtra (viewType c.typ)) (fun c => (destWidth c.typ : Int) - 1) (fun c => colExtra_view c.typ)
     simp only [Function.comp_def]
@@ -133,7 +129,7 @@ theorem count_lt (m : Meta) (hw : wfMeta m = true) : m.cols.count < 2147483648 :
   have := h2.2
   cases cols <;> simp [wfCols] at this <;> simp [Cols.count] <;> omega
 
-theorem parseResultMetadata_ok (m : Meta) (r : FrameRead.Bytes) (hw : wfMeta m = true) (hc : noCollClassMeta m = true) :
+theorem parseResultMetadata_ok (m : Meta) (r : FrameRead.Bytes) (hw : wfMeta m = true) :
     parseResultMetadata (eMeta m ++ r) = .ok (viewMeta m, r) := by
   unfold parseResultMetadata eMeta
   have hf := flagBits_lt m
@@ -142,13 +138,13 @@ theorem parseResultMetadata_ok (m : Meta) (r : FrameRead.Bytes) (hw : wfMeta m =
   rw [bind_ok (readInt_eInt_nat _ _ (by omega)), bind_ok (readInt_eInt_nat _ _ hn)]
   have : ¬ ((m.cols.count : Int) < 0) := by omega
   simp only [this, if_false]
-  have h := readMetaTail_ok m r hw hc
+  have h := readMetaTail_ok m r hw
   simp only [List.append_assoc] at h
   rw [bind_ok h]
   rfl
 
 theorem parsePreparedMetadata_ok (v : Nat) (pk : List Nat) (m : Meta) (r : FrameRead.Bytes)
-    (hw : wfMeta m = true) (hc : noCollClassMeta m = true)
+    (hw : wfMeta m = true)
     (hpk : pk.length < 2147483648) (hpks : pk.all isShort = true) :
     parsePreparedMetadata v (ePreparedMeta v pk m ++ r) = .ok (viewPrepared v pk m, r) := by
   unfold parsePreparedMetadata ePreparedMeta
@@ -158,7 +154,7 @@ theorem parsePreparedMetadata_ok (v : Nat) (pk : List Nat) (m : Meta) (r : Frame
   rw [bind_ok (readInt_eInt_nat _ _ (by omega)), bind_ok (readInt_eInt_nat _ _ hn)]
   have : ¬ ((m.cols.count : Int) < 0) := by omega
   simp only [this, if_false]
-  have h := readMetaTail_ok m r hw hc
+  have h := readMetaTail_ok m r hw
   simp only [List.append_assoc] at h
   by_cases hv : v ≥ 4
   · have hv' : (decide (v ≥ 4)) = true := by simpa using hv
